@@ -210,6 +210,9 @@ func (w *W) serve(node, inc int, ss grpc.ServerStream) error {
 		dev.RegisterZorumsServiceServer(srv, &Puppet{w: w, node: node})
 		si = &serverInc{inc: inc, srv: srv}
 		w.servers[node] = si
+		mc.RaceRelease(mc.Ptr(&w.srvO[node])) // a real server is set up before it accepts any stream
+	} else {
+		mc.RaceAcquire(mc.Ptr(&w.srvO[node]))
 	}
 	st := fakegrpc.StreamOf(ss.Context())
 	w.Event(&w.srvO[node], Event{Kind: "accept", Node: node, Conn: st.ID, Inc: inc, Payload: mdString(st.MD)})
